@@ -303,6 +303,19 @@ def parseSound (content : Content) : R Fields :=
 def parsePalette : R Fields := .ok [("type", jS "palette")]
 def parseScript : R Fields := .ok [("type", jS "script")]
 
+/-! ### the remaining fixed reads of the model, as kind lists (tied to the generated layouts in DrxProps/C15.lean) -/
+
+/-- `structD4`: `>h` at 0, `>i` at 2, `fdata[6]` -/
+def structD4Kinds : List FK := [.s16, .s32, .u8]
+/-- `structD5`: three `>i` at 0, 4, 8 -/
+def structD5Kinds : List FK := [.s32, .s32, .s32]
+/-- `parseBasic`: `>i` numbers size, `>I` script key, three `>i` (offsets 0, 4, 8, 12, 16) -/
+def basicKinds : List FK := [.s32, .u32, .s32, .s32, .s32]
+/-- `parseImage`: the two `>h` reads at 23 and 25 under `len(header_data) > 24` -/
+def imageTailKinds : List FK := [.s16, .s16]
+def imageTailOff : Nat := 23
+def imageTailGuard : Nat := 24
+
 /-! ### top level -/
 
 structure CastData where
